@@ -77,12 +77,8 @@ def setup_env(w):
 
 
 def setup_env_full(w):
-    """All environment services interpreted from the real classes (oracles, serializer)."""
-    setup_env(w)
-    for attr, cls in (("_qfo", "pysmt.oracles.QuantifierOracle"), ("_theoryo", "pysmt.oracles.TheoryOracle"),
-                      ("_sizeo", "pysmt.oracles.SizeOracle"), ("_ao", "pysmt.oracles.AtomsOracle"),
-                      ("_typeso", "pysmt.oracles.TypesOracle"), ("_serializer", "pysmt.printers.HRSerializer")):
-        w.env.attrs[attr] = w.new_walker(cls, w.env)
+    """All environment services interpreted from the real classes (oracles, serializer), created on first use."""
+    w.lazy_services = True
     return w
 
 
